@@ -82,16 +82,16 @@ def colorAfter : List Nat → Bool → Bool
 
 when_kernel Gzx.Gen.K03w.appendPattern in
 /-- one iteration of the outer loop of `onedWriter_appendPattern`, as a function of the run length read -/
-def apStep (len : Int) (st : List Int × Int × Bool × Int) : Ctl (List Int × Int × Bool × Int) (Int × List Int) :=
-  (loop (Gen.K03w.appendPattern_body2 st.2.2.1) 1 (tripUp 0 len 1) 0 (st.1, st.2.1)).thenC fun s =>
-    .next (s.1, s.2, !st.2.2.1, st.2.2.2 + len)
+def apStep (len : Int) (st : List Int × Int × Int × Bool) : Ctl (List Int × Int × Int × Bool) (Int × List Int) :=
+  (loop (Gen.K03w.appendPattern_body2 st.2.2.2) 1 (tripUp 0 len 1) 0 (st.1, st.2.1)).thenC fun s =>
+    .next (s.1, s.2, st.2.2.1 + len, !st.2.2.2)
 
 when_kernel Gzx.Gen.K03w.appendPattern in
 theorem k_appendPattern_fold : ∀ (pat : List Nat) (c : Bool) (done rest : List Int) (k : Int),
-    foldC apStep (pat.map Int.ofNat) (done ++ rest, (done.length : Int), c, k) =
+    foldC apStep (pat.map Int.ofNat) (done ++ rest, (done.length : Int), k, c) =
       if OneD.sumL pat ≤ rest.length then
         .next (done ++ b01 (OneD.appendPattern pat c) ++ rest.drop (OneD.sumL pat), ((done.length + OneD.sumL pat : Nat) : Int),
-               colorAfter pat c, k + (OneD.sumL pat : Nat))
+               k + (OneD.sumL pat : Nat), colorAfter pat c)
       else .panic oob := by
   intro pat
   induction pat with
